@@ -25,6 +25,59 @@ EXE = "c05_model"
 SKIP_DIRS = {"tests", "__pycache__", "node_modules", ".git", "app", "tutorial", "users", "library"}
 
 
+UNPARSED = "unparsed"      # the source assigns something the AST reader cannot evaluate; the live registry decides
+
+
+def macro_modules(repo):
+    """Dotted names of every module whose source mentions `register_macro` or `global_macros`."""
+    mods = []
+    for root, dirs, files in os.walk(repo):
+        dirs[:] = sorted(d for d in dirs if d not in SKIP_DIRS and not d.startswith("."))
+        for fn in sorted(files):
+            if fn.endswith(".py"):
+                p = os.path.join(root, fn)
+                with open(p, encoding="utf-8") as f:
+                    src = f.read()
+                if "register_macro" in src or "global_macros" in src:
+                    mods.append(os.path.relpath(p, repo)[:-3].replace(os.sep, "."))
+    return mods
+
+
+def live_macro_rows(ctx):
+    """(name, level, module) of every macro in the registry of the running implementation after
+    importing every module that can register one (also `global_macros.update({...})`, instances, named
+    constants for the level).  A level that check_proof would refuse (not None / int >= 0) counts as None."""
+    import importlib
+    import sys
+    import types
+    import warnings
+    if "smt" not in sys.modules or not getattr(sys.modules["smt"], "__path__", None) or ctx.repo not in str(list(sys.modules["smt"].__path__)):
+        m = types.ModuleType("smt")
+        m.__path__ = [os.path.join(ctx.repo, "smt")]
+        sys.modules["smt"] = m
+    failed = []
+    from logic import basic
+    basic.load_theory('real')          # smt/verit modules need it loaded first
+    for mod in macro_modules(ctx.repo):
+        try:
+            with warnings.catch_warnings():
+                warnings.simplefilter("ignore")
+                importlib.import_module(mod)
+        except BaseException as e:  # noqa
+            failed.append((mod, type(e).__name__))
+            ctx.count("macro-table:import-failed:%s" % mod)
+    sys.setrecursionlimit(12000)       # prover/proofrec.py sets 10**7 on import
+    from kernel import theory
+    rows = []
+    for name, m in theory.global_macros.items():
+        lv = getattr(m, "level", None)
+        if not (isinstance(lv, int) and not isinstance(lv, bool) and lv >= 0):
+            lv = None
+        rows.append((name, lv, type(m).__module__))
+    rows.sort()
+    return rows, failed
+
+
 def scan_macros(repo):
     """All `@register_macro(name)` classes with the value assigned to `self.level` (None when the
     class never assigns it: `Macro.__init__` sets None, and such a macro is always expanded)."""
@@ -55,9 +108,12 @@ def scan_macros(repo):
                             if isinstance(sub, ast.Assign):
                                 for t in sub.targets:
                                     if isinstance(t, ast.Attribute) and t.attr == "level" and isinstance(t.value, ast.Name) and t.value.id == "self":
-                                        v = ast.literal_eval(sub.value)     # untranslatable if not a literal
-                                        assert v is None or (isinstance(v, int) and v >= 0), "untranslatable: level %r" % (v,)
-                                        assert not seen or v == level, "untranslatable: two level assignments in %s" % node.name
+                                        try:
+                                            v = ast.literal_eval(sub.value)
+                                            if not (v is None or (isinstance(v, int) and not isinstance(v, bool) and v >= 0)) or (seen and v != level):
+                                                v = UNPARSED
+                                        except Exception:  # noqa  (a named constant, an expression ...)
+                                            v = UNPARSED
                                         level, seen = v, True
                         rows.append((name, level, os.path.relpath(p, repo)[:-3].replace(os.sep, ".")))
     rows.sort()
@@ -78,11 +134,40 @@ def default_check_level(repo):
     return vals.pop()
 
 
-def gen_lean(repo):
-    rows = scan_macros(repo)
-    lvl = default_check_level(repo)
-    out = ["/- GENERATED by harness/props/c05.py from the `@register_macro` classes of the holpy sources (read with `ast`);",
-           "   do not edit.  level = the literal assigned to `self.level` (none: never assigned, always expanded). -/",
+def gen_lean(ctx):
+    """Table = the live registry; the AST scan is a cross-check, and supplies rows of modules that could
+    not be imported."""
+    repo = ctx.repo
+    rows, failed = live_macro_rows(ctx)
+    live = {r[0]: r for r in rows}
+    try:
+        ast_rows = scan_macros(repo)
+    except Exception as e:  # noqa
+        ast_rows = []
+        ctx.count("macro-table:ast-scan-failed")
+        ctx.log("AST scan of register_macro classes failed (%r); the table is the live registry only" % (e,))
+    for name, level, mod in ast_rows:
+        if level == UNPARSED:
+            ctx.count("macro-table:ast-level-unparsed")
+            if name not in live:
+                ctx.broken("translate:c05:macro-table", "macro %s (%s): level is not a literal and the module could not be imported" % (name, mod))
+        elif name in live:
+            if live[name][1] != level:
+                ctx.broken("translate:c05:macro-table", "level of %s: source says %r, registry says %r" % (name, level, live[name][1]))
+        else:
+            ctx.count("macro-table:row-from-ast-only")
+            rows.append((name, level, mod))
+    rows.sort()
+    try:
+        lvl = default_check_level(repo)
+    except Exception as e:  # noqa
+        import inspect
+        from kernel import theory
+        lvl = inspect.signature(theory.check_proof).parameters["check_level"].default
+        ctx.count("macro-table:check-level-from-signature")
+    out = ["/- GENERATED by harness/props/c05.py: the macro registry (`kernel.theory.global_macros`) of the running holpy after importing",
+           "   every module that can register a macro, cross-checked with an `ast` scan of the `@register_macro` classes; do not edit.",
+           "   level = `macro.level` (none: None or not an int >= 0, i.e. never accepted without expansion). -/",
            "namespace Holpy.C05.Gen", "",
            "/-- default of the keyword `check_level` of `check_proof` in kernel/theory.py -/",
            "def defaultCheckLevel : Nat := %d" % lvl, "",
@@ -102,7 +187,8 @@ def gen_lean(repo):
 #                 ["plus",T,a,b] ["minus",T,a,b] ["times",T,a,b] ["uminus",T,a] ["divide",a,b]
 #                 ["inverse",a] ["power",T,a,b] ["eq",T,a,b] ["lt"|"le"|"gt"|"ge",T,a,b] ["neg",a]
 #                 "tru" "fls"
-#   extra forms : ["var",name,T] ["fn",name,e] (sqrt exp log sin cos tan atn abs at real) ["pi"]
+#   extra forms : ["var",name,T] ["fn",name,e] (sqrt exp log sin cos tan cot sec csc atn abs at real) ["pi"]
+#                 ["forged",name,[T1..Tn],T,e1..en]  the constant `name` at type T1 => .. => Tn => T (any types at all)
 #                 ["lit",T,"p","q"]  the canonical numeral kernel.term.Number(T, p/q) (keeps replays short)
 #   T           : "nat" "int" "real" "bool" "other"
 class K:
@@ -113,6 +199,8 @@ class K:
     def load(cls):
         if cls.loaded:
             return
+        import sys
+        sys.setrecursionlimit(max(sys.getrecursionlimit(), 12000))   # printing / hashing 700-bit numerals recurses per bit
         from kernel import term, theory
         from kernel import type as htype
         from kernel.proof import Proof, ProofItem
@@ -179,6 +267,11 @@ def build(tr):
         return t.Const("pi", ht.RealType)
     if h == "lit":
         return build(expand_lit(tr[1], Fraction(int(tr[2]), int(tr[3]))))
+    if h == "forged":
+        tm = t.Const(tr[1], ht.TFun(*([K.T[x] for x in tr[2]] + [K.T[tr[3]]])))
+        for a in tr[4:]:
+            tm = tm(build(a))
+        return tm
     raise ValueError("build: %r" % (tr,))
 
 
@@ -265,6 +358,17 @@ def to_wire(t, atoms):
     if t not in atoms:
         atoms[t] = len(atoms)
     return ["atom", T, atoms[t], len(t.get_vars()) > 0]
+
+
+def safe_str(x):
+    """str() of a term/theorem; holpy's printer hashes subterms recursively and CPython's C recursion
+    limit is hit on numerals of several hundred bits."""
+    try:
+        return str(x)
+    except RecursionError:
+        return "<term too deep to print>"
+    except Exception as e:  # noqa  (the printer consults the current theory)
+        return "<unprintable: %s>" % type(e).__name__
 
 
 def wire_str(w):
@@ -458,7 +562,7 @@ def _sem0(t, env):
         return (kind, abs(num(0, kind)))
     if T == R and k == 0 and nm == "pi":
         return ("q", +m.pi)
-    if T == R and k == 1 and nm in ("sqrt", "exp", "log", "sin", "cos", "tan", "atn") and head.T == ht.TFun(R, R):
+    if T == R and k == 1 and nm in ("sqrt", "exp", "log", "sin", "cos", "tan", "cot", "sec", "csc", "atn") and head.T == ht.TFun(R, R):
         a = num(0, "q")
         if nm == "sqrt":
             if is_exact(a):
@@ -482,11 +586,14 @@ def _sem0(t, env):
             return ("q", Fraction(0) if is_exact(a) and a == 0 else m.sin(x))
         if nm == "cos":
             return ("q", Fraction(1) if is_exact(a) and a == 0 else m.cos(x))
-        if nm == "tan":
-            c = m.cos(x)
-            if abs(c) < m.mpf(10) ** (-150):
-                raise NoMeaning("tan at a pole")
-            return ("q", m.sin(x) / c)
+        if nm in ("tan", "cot", "sec", "csc"):
+            # library/transcendentals.json: tan = sin/cos, cot = cos/sin, sec = 1/cos, csc = 1/sin (x / 0 = 0)
+            num, den = {"tan": (m.sin(x), m.cos(x)), "cot": (m.cos(x), m.sin(x)), "sec": (m.mpf(1), m.cos(x)), "csc": (m.mpf(1), m.sin(x))}[nm]
+            if is_exact(a) and a == 0 and nm in ("cot", "csc"):
+                return ("q", Fraction(0))
+            if abs(den) < m.mpf(10) ** (-150):
+                raise NoMeaning("%s at a pole (the divisor is numerically indistinguishable from 0)" % nm)
+            return ("q", num / den)
         if nm == "atn":
             return ("q", m.atan(x))
     if nm == "true" and k == 0:
@@ -564,6 +671,12 @@ def to_sympy(t):
         raise ValueError
     if nm == "pi" and k == 0:
         return sp.pi
+    if k == 1 and nm in ("cot", "sec", "csc"):
+        a = to_sympy(args[0])
+        d = sp.sin(a) if nm in ("cot", "csc") else sp.cos(a)
+        if sp.simplify(d).is_zero is not False:
+            raise ValueError
+        return (sp.cos(a) if nm == "cot" else sp.Integer(1)) / d
     if k == 1 and nm in ("sqrt", "exp", "log", "sin", "cos", "tan", "atn", "abs"):
         a = to_sympy(args[0])
         if nm == "sqrt":
@@ -610,7 +723,7 @@ def compare(nm, a, b):
 MODELLED = ["nat_eval", "int_eval", "int_const_ineq", "real_eval", "real_const_eq", "real_compare",
             "real_const_ineq", "const_inequality"]
 ORACLE_ONLY = ["real_norm", "real_eq_comparison"]
-BRIDGES = ["z3", "sympy", "simplex_macro", "integer_simplex"]     # C06 / C16
+BRIDGES = ["z3", "sympy", "simplex_macro", "integer_simplex", "verit_imp_conj"]     # C06 / C16 / C18
 
 # which type the compared terms must have for the step to be *meant* for the goal
 INTENDED = {"nat_eval": ("nat",), "int_eval": ("int",), "int_const_ineq": ("int",), "real_eval": ("real",),
@@ -665,16 +778,16 @@ def inner_sides_type(stmt):
 
 def judge(ctx, macro, tree, goal, th, envs=None):
     """Property oracle on one accepted step.  Returns a histogram label."""
-    rp = {"macro": macro, "goal": tree, "asserted": str(th)}
+    rp = {"macro": macro, "goal": tree, "asserted": safe_str(th)}
     key_goal = short_key(tree)
     if len(th.hyps) != 0:
-        ctx.violation("hyps:%s:%s" % (macro, key_goal), "%s returned a sequent with hypotheses: %s" % (macro, th), rp)
+        ctx.violation("hyps:%s:%s" % (macro, key_goal), "%s returned a sequent with hypotheses: %s" % (macro, safe_str(th)), rp)
         return "viol"
     stmt = th.prop
     # (a) shape and type the step is meant for
     st = inner_sides_type(stmt) if macro == "real_eq_comparison" else side_type(stmt)
     if st not in INTENDED[macro]:
-        ctx.violation("wrong-type:%s:%s" % (macro, st), "%s accepted a goal about terms of type %s: |- %s" % (macro, st, stmt), rp)
+        ctx.violation("wrong-type:%s:%s" % (macro, st), "%s accepted a goal about terms of type %s: |- %s" % (macro, st, safe_str(stmt)), rp)
         return "viol"
     # (b) truth
     vars_ = stmt.get_vars()
@@ -703,14 +816,14 @@ def judge(ctx, macro, tree, goal, th, envs=None):
                     rp["atoms"] = {str(k): str(x) for k, x in env.get("__atoms__", {}).items()}
                     break
     except NoMeaning as e:
-        ctx.violation("no-meaning:%s:%s" % (macro, key_goal), "%s asserted a statement with no standard meaning (%s): |- %s" % (macro, e, stmt), rp)
+        ctx.violation("no-meaning:%s:%s" % (macro, key_goal), "%s asserted a statement with no standard meaning (%s): |- %s" % (macro, e, safe_str(stmt)), rp)
         return "viol"
     except Undecided:
         # equal to 160 digits: accept only non-strict / equality statements as plausibly true
         ctx.count("oracle:undecided-at-%d-digits" % MP_DPS)
         return "undecided"
     if not ok:
-        ctx.violation("false:%s:%s" % (macro, key_goal), "%s asserted a false statement: |- %s" % (macro, stmt), rp)
+        ctx.violation("false:%s:%s" % (macro, key_goal), "%s asserted a false statement: |- %s" % (macro, safe_str(stmt)), rp)
         return "viol"
     return "true"
 
@@ -876,7 +989,7 @@ def gen_expr(rng, T, depth, irr=False, vars_=None):
             base = sub() if rng.random() < 0.6 else lit("real", rng.choice([-8, -2, -1, 0, 1, 2, Fraction(-1, 2), Fraction(4, 9)]))
             return ["power", "real", base, e]
         if op == "fn":
-            return ["fn", rng.choice(["sqrt", "exp", "log", "sin", "cos", "tan", "atn", "abs"]), sub()]
+            return ["fn", rng.choice(["sqrt", "exp", "log", "sin", "cos", "tan", "cot", "sec", "csc", "atn", "abs"]), sub()]
         return [op, "real", sub(), sub()]
     # bool / other: the overloaded constants at a type where they have no meaning
     op = rng.choice(["plus", "minus", "times", "uminus"])
@@ -1119,6 +1232,24 @@ def directed_goals():
         ["eq", "bool", ["lt", R, ["var", "x", R], L(R, 1)], ["lt", R, ["plus", R, ["var", "x", R], L(R, 1)], L(R, 2)]],
         ["eq", "bool", ["lt", R, ["var", "x", R], L(R, 1)], ["lt", R, ["plus", R, ["var", "x", R], L(R, 1)], L(R, 3)]],
     ]
+    # dropped side conditions in the polynomial normaliser (only visible at special valuations)
+    n, x, y = ["var", "n", N], ["var", "x", R], ["var", "y", R]
+    out += [
+        ["eq", R, ["plus", R, ["ofnat", R, ["minus", N, n, L(N, 1)]], L(R, 1)], ["ofnat", R, n]],
+        ["eq", R, ["ofnat", R, ["minus", N, ["plus", N, n, L(N, 1)], L(N, 1)]], ["ofnat", R, n]],
+        ["eq", R, ["divide", x, x], L(R, 1)],
+        ["eq", R, ["times", R, ["divide", x, x], y], y],
+        ["eq", R, ["times", R, x, ["inverse", x]], L(R, 1)],
+        ["eq", R, ["divide", ["times", R, x, y], x], y],
+        ["eq", R, ["power", R, x, L(R, 0)], L(R, 1)],
+        ["eq", R, ["minus", R, ["ofnat", R, n], ["ofnat", R, n]], L(R, 0)],
+    ]
+    # cot / sec / csc are decided by real_interval_eval
+    for f, arg, rel, c in (("sec", ["pi"], "le", -1), ("sec", ["pi"], "lt", 0), ("sec", ["pi"], "gt", 0), ("csc", ["divide", ["pi"], L(R, 2)], "ge", 1),
+                           ("csc", L(R, 1), "gt", 1), ("csc", L(R, 1), "lt", 1), ("cot", L(R, 1), "gt", 0), ("cot", L(R, 1), "lt", 0),
+                           ("cot", ["divide", ["pi"], L(R, 2)], "eq", 0), ("sec", L(R, 0), "eq", 1), ("cot", L(R, 0), "gt", 0), ("csc", L(R, 0), "eq", 0),
+                           ("sec", ["divide", ["pi"], L(R, 2)], "gt", 0), ("sec", L(R, 2), "lt", -2), ("sec", L(R, 2), "gt", -2)):
+        out.append([rel, R, ["fn", f, arg], L(R, c)])
     # pairs of equal values that floats / intervals cannot tell apart, under every relation
     sq2 = ["fn", "sqrt", L(R, 2)]
     pairs = [(["fn", "sin", ["pi"]], L(R, 0)), (["times", R, sq2, sq2], L(R, 2)), (["fn", "exp", ["fn", "log", L(R, 3)]], L(R, 3)),
@@ -1351,7 +1482,12 @@ def macro_stream(ctx, goals, label, macros=None, envs_for=None):
 
 
 def rand_envs(rng, n=6):
-    envs = []
+    """Valuations of x, y (real) and n (nat): the special points first (0, 1, -1, x = y, n in {0, 1}: where a
+    dropped side condition such as x/x = 1 or of_nat (n - 1) + 1 = of_nat n shows), then random ones."""
+    F = Fraction
+    envs = [{"x": F(0), "y": F(0), "n": 0}, {"x": F(1), "y": F(1), "n": 1}, {"x": F(-1), "y": F(-1), "n": 0},
+            {"x": F(0), "y": F(1), "n": 1}, {"x": F(1), "y": F(0), "n": 0}, {"x": F(-1), "y": F(1), "n": 2},
+            {"x": F(2), "y": F(2), "n": 0}, {"x": F(1, 2), "y": F(-3), "n": 1}]
     for _ in range(n):
         envs.append({"x": Fraction(rng.randint(-7, 7), rng.choice([1, 1, 2, 3])), "y": Fraction(rng.randint(-5, 9), rng.choice([1, 2, 5])),
                      "n": rng.randint(0, 4)})
@@ -1408,6 +1544,312 @@ def den_stream(ctx, goals):
                 ctx.broken("correspondence:c05:den", "tree=%s lean=%s harness=%s" % (json.dumps(tree), lean, mine))
 
 
+
+# ---------------------------------------------------------------------------------------------
+# 6b. near-equal irrational comparisons (gap far below the precision of the interval evaluator)
+# ---------------------------------------------------------------------------------------------
+HP_DPS = 1300
+
+
+class hp_precision:
+    """Temporarily run the mpmath oracle at HP_DPS digits."""
+
+    def __enter__(self):
+        self.m = mp()
+        self.old = self.m.dps
+        self.m.dps = HP_DPS
+
+    def __exit__(self, *exc):
+        self.m.dps = self.old
+        return False
+
+
+def near_equal_bases():
+    """(name, a, b): two variable-free real terms with the SAME value (by construction / a textbook
+    identity), at least one of which real_eval cannot compute; some identical, some not."""
+    R, L = "real", lit
+    pi = ["pi"]
+    sq2 = ["fn", "sqrt", L(R, 2)]
+    big = ["power", R, L(R, 10), L("nat", 80)]
+    s1, c1 = ["fn", "sin", L(R, 1)], ["fn", "cos", L(R, 1)]
+    return [
+        ("pi", pi, pi),
+        ("sqrt2*sqrt2~2", ["times", R, sq2, sq2], L(R, 2)),
+        ("1e80*sqrt2", ["times", R, big, sq2], ["times", R, big, sq2]),
+        ("sqrt2", sq2, sq2),
+        ("exp(log3)~3", ["fn", "exp", ["fn", "log", L(R, 3)]], L(R, 3)),
+        ("pi+1e80", ["plus", R, pi, big], ["plus", R, pi, big]),
+        ("pi/2~1/2*pi", ["divide", pi, L(R, 2)], ["times", R, L(R, Fraction(1, 2)), pi]),
+        ("sin^2+cos^2~1", ["plus", R, ["times", R, s1, s1], ["times", R, c1, c1]], L(R, 1)),
+        ("log2+log3~log6", ["plus", R, ["fn", "log", L(R, 2)], ["fn", "log", L(R, 3)]], ["fn", "log", L(R, 6)]),
+    ]
+
+
+NE_RELS = ["lt", "le", "gt", "ge", "eq", "ne"]
+
+
+def near_equal_cases(ctx):
+    """Every case: perturbed = a + d with a rational d = ±10^-k (or ±1 on the 10^80-scale bases), other = b
+    (value of a = value of b), relation, order of the sides.  The truth is decided by the sign of d."""
+    R = "real"
+    bases = near_equal_bases()
+    core, rest = [], []
+    for bi, (bname, a, b) in enumerate(bases):
+        gaps = [50, 70, 100, 150, 200] + ([0] if "1e80" in bname else [])
+        for k in gaps:
+            for sign in (1, -1):
+                d = Fraction(sign, 10 ** k)
+                eps_forms = [lit(R, Fraction(1, 10 ** k))]
+                if k > 0:
+                    eps_forms.append(["divide", ["one", R], ["power", R, lit(R, 10), lit("nat", k)]])
+                for fi, eps in enumerate(eps_forms):
+                    pert = ["plus" if sign > 0 else "minus", R, a, eps]
+                    for rel in NE_RELS:
+                        for order in (0, 1):
+                            case = {"family": "near-equal", "base": bname, "pert": pert, "other": b, "d": [d.numerator, d.denominator],
+                                    "rel": rel, "order": order}
+                            is_core = bi < 3 and k in (70, 200, 0) and fi == len(eps_forms) - 1
+                            (core if is_core else rest).append(case)
+    if ctx.tier == "thorough":
+        return core + rest
+    rng = ctx.rng("near-equal")
+    rng.shuffle(rest)
+    return core + rest[:60]
+
+
+def ne_goal_tree(case):
+    l, r = (case["pert"], case["other"]) if case["order"] == 0 else (case["other"], case["pert"])
+    if case["rel"] == "ne":
+        return ["neg", ["eq", "real", l, r]]
+    return [case["rel"], "real", l, r]
+
+
+def ne_truth(case):
+    """value(left) - value(right) has the sign of ±d, exactly."""
+    d = Fraction(case["d"][0], case["d"][1])
+    if case["order"] == 1:
+        d = -d
+    sgn = (d > 0) - (d < 0)
+    return {"lt": sgn < 0, "le": sgn <= 0, "gt": sgn > 0, "ge": sgn >= 0, "eq": sgn == 0, "ne": sgn != 0}[case["rel"]]
+
+
+_hp_checked = {}
+
+
+def ne_crosscheck(case):
+    """Independent confirmation of the construction with mpmath at HP_DPS digits: pert - other = d."""
+    key = json.dumps([case["pert"], case["other"]])
+    if key in _hp_checked:
+        return _hp_checked[key]
+    d = Fraction(case["d"][0], case["d"][1])
+    with hp_precision():
+        m = mp()
+        v1 = to_mpf(sem(build(case["pert"]))[1])
+        v2 = to_mpf(sem(build(case["other"]))[1])
+        diff = v1 - v2
+        ok = abs(diff - to_mpf(d)) < abs(to_mpf(d)) * m.mpf(10) ** (-300)
+    _hp_checked[key] = bool(ok)
+    return bool(ok)
+
+
+def same_term(a, b):
+    """Structural equality of two kernel terms with an explicit stack (Term.__eq__ recurses through C
+    slots and overflows CPython's C stack guard on numerals of several hundred bits)."""
+    Term = K.term.Term
+    stack = [(a, b)]
+    while stack:
+        x, y = stack.pop()
+        if x is y:
+            continue
+        if x.ty != y.ty:
+            return False
+        if x.ty == Term.COMB:
+            stack.append((x.fun, y.fun))
+            stack.append((x.arg, y.arg))
+        elif x.ty in (Term.CONST, Term.VAR, Term.SVAR):
+            if x.name != y.name or x.T != y.T:
+                return False
+        elif x.ty == Term.ABS:
+            if x.var_T != y.var_T:
+                return False
+            stack.append((x.body, y.body))
+        elif x.ty == Term.BOUND:
+            if x.n != y.n:
+                return False
+        else:
+            return False
+    return True
+
+
+def asserted_truth(stmt, core, core_truth):
+    """Truth of an asserted statement built from the core relation by ¬ and `⟷ true/false`; None otherwise."""
+    if same_term(stmt, core):
+        return core_truth
+    head, args = strip(stmt)
+    if head.ty == K.term.Term.CONST and head.name == "neg" and len(args) == 1:
+        v = asserted_truth(args[0], core, core_truth)
+        return None if v is None else (not v)
+    if head.ty == K.term.Term.CONST and head.name == "equals" and len(args) == 2:
+        if same_term(args[1], K.term.true):
+            return asserted_truth(args[0], core, core_truth)
+        if same_term(args[1], K.term.false):
+            v = asserted_truth(args[0], core, core_truth)
+            return None if v is None else (not v)
+    return None
+
+
+NE_MACROS = ["const_inequality", "real_compare", "real_const_eq", "real_const_ineq", "real_eval", "real_norm"]
+
+
+def near_equal_stream(ctx, cases, macros=None):
+    macros = macros or NE_MACROS
+    for case in cases:
+        if not ne_crosscheck(case):
+            raise AssertionError("near-equal construction not confirmed at %d digits: %r" % (HP_DPS, case))
+        tree = ne_goal_tree(case)
+        goal = build(tree)
+        core_tree = tree[1] if case["rel"] == "ne" else tree
+        core = build(core_tree)
+        core_truth = (not ne_truth(case)) if case["rel"] == "ne" else ne_truth(case)
+        gap = "1e-%d" % (len(str(case["d"][1])) - 1)
+        for macro in macros:
+            res = run_check(macro, goal)
+            ctx.case(("near-equal", macro, tree), nontrivial=res[0] == "ok")
+            ctx.count("near-equal:%s:%s" % (macro, res[0]))
+            if res[0] != "ok":
+                continue
+            th = res[1]
+            rp = {"macro": macro, "goal": tree, "asserted": safe_str(th), "near_equal": case,
+                  "oracle": "left - right = %s%s exactly (the perturbation is rational and the unperturbed sides are equal); "
+                            "confirmed with mpmath at %d digits" % ("" if case["order"] == 0 else "-", Fraction(case["d"][0], case["d"][1]), HP_DPS)}
+            v = asserted_truth(th.prop, core, core_truth) if len(th.hyps) == 0 else None
+            if v is None:
+                ctx.violation("unexpected-statement:%s:%s" % (macro, short_key(tree)), "%s asserted %s for the goal %s" % (macro, safe_str(th), safe_str(goal)), rp)
+            elif not v:
+                ctx.violation("false:%s:%s" % (macro, short_key(tree)),
+                              "%s asserted a false statement (the sides differ by %s, far below the precision of the bounds): |- %s" % (macro, gap, safe_str(th.prop)), rp)
+            else:
+                ctx.count("near-equal:accepted-true")
+
+
+# ---------------------------------------------------------------------------------------------
+# 6d. forged constants: arithmetic constants at types that are no instance of their declared type
+# ---------------------------------------------------------------------------------------------
+def forged_goals():
+    N, I, R = "nat", "int", "real"
+    L = lit
+    out = []
+    for op, f in (("plus", lambda a, b: a + b), ("minus", lambda a, b: a - b), ("times", lambda a, b: a * b)):
+        for A, B in ((R, N), (N, R), (R, I), (N, I), (I, N), (I, R)):
+            lhs = ["forged", op, [A, A], B, L(A, 1), L(A, 2)]
+            v = f(1, 2)
+            for w in {v, max(v, 0)}:
+                if B == N and w < 0:
+                    continue
+                out.append(["eq", B, lhs, L(B, w)])
+            out.append(["le", B, lhs, L(B, 5)])
+            out.append(["neg", ["eq", B, lhs, L(B, 7)]])
+    out += [
+        ["eq", N, ["forged", "uminus", [R], N, L(R, 1)], L(N, 0)],
+        ["eq", I, ["forged", "uminus", [N], I, L(N, 1)], L(I, -1)],
+        ["eq", R, ["forged", "of_nat", [R], R, L(R, 2)], L(R, 2)],
+        ["eq", N, ["forged", "of_nat", [R], N, ["minus", R, L(R, 1), L(R, 2)]], L(N, 0)],
+        ["eq", N, ["forged", "real_divide", [N, N], N, L(N, 6), L(N, 3)], L(N, 2)],
+        ["eq", I, ["forged", "real_divide", [I, I], I, L(I, 6), L(I, 3)], L(I, 2)],
+        ["eq", R, ["forged", "power", [N, N], R, L(N, 2), L(N, 3)], L(R, 8)],
+        ["eq", R, ["forged", "real_inverse", [N], R, L(N, 2)], L(R, Fraction(1, 2))],
+        ["eq", R, ["forged", "of_int", [N], R, ["minus", N, L(N, 1), L(N, 2)]], L(R, -1)],
+        ["eq", N, ["forged", "Suc", [R], N, L(R, Fraction(1, 2))], L(N, 1)],
+        ["forged", "equals", [N, R], "bool", L(N, 1), L(R, 1)],
+        ["forged", "less", [N, R], "bool", L(N, 1), L(R, 2)],
+        ["forged", "less_eq", [R, N], "bool", ["minus", R, L(R, 1), L(R, 2)], L(N, 0)],
+    ]
+    return out
+
+
+def forged_stream(ctx):
+    """Every goal here is type-correct for the kernel (check_thm_type passes) but is NOT a term of the theory:
+    some arithmetic constant is used at a type that is no instance of its declared one (Theory.check_term
+    fails).  The evaluators go by constant names, so a trusted step that does not check this asserts an
+    'evaluation' of a term it knows nothing about; the property demands rejection."""
+    n_ok = 0
+    for tree in forged_goals():
+        goal = build(tree)
+        try:
+            goal.checked_get_type()
+        except Exception:  # noqa
+            ctx.count("forged:ill-typed-for-the-kernel(skipped)")
+            continue
+        try:
+            K.theory.thy.check_term(goal)
+            ctx.count("forged:actually-well-formed(skipped)")
+            continue
+        except Exception:  # noqa
+            pass
+        for macro in MODELLED + ORACLE_ONLY:
+            res = run_check(macro, goal)
+            ctx.case(("forged", macro, tree), nontrivial=True)
+            ctx.count("forged:%s:%s" % (macro, res[0]))
+            if res[0] == "ok":
+                n_ok += 1
+                ctx.violation("forged-constant:%s" % macro,
+                              "%s accepted a goal in which a constant is used at a type that is no instance of its declared type "
+                              "(not a term of the theory): goal %s, asserted |- %s" % (macro, short_key(tree), safe_str(res[1].prop)),
+                              {"macro": macro, "goal": tree, "forged": True, "asserted": safe_str(res[1])})
+    return n_ok
+
+
+# ---------------------------------------------------------------------------------------------
+# 6c. the six accept conditions of eval_inequality_expr against the model (bounds injected)
+# ---------------------------------------------------------------------------------------------
+def interval_decision_stream(ctx):
+    """`eval_inequality_expr` decides from the enclosures returned by `eval_bounds`; the harness injects
+    rational enclosures and compares every decision with the Lean `intervalAccept` (whose six conditions
+    are proved sound and tight).  A flipped / relaxed comparison shows up here without a numeric witness."""
+    from integral import inequality
+    if not (hasattr(inequality, "eval_bounds") and hasattr(inequality, "eval_inequality_expr")):
+        ctx.count("interval-decision:hook-unavailable")
+        ctx.log("interval-decision stream skipped: integral.inequality has no eval_bounds to inject bounds into")
+        return
+    ta, tb = ["fn", "sqrt", lit("real", 2)], ["fn", "sqrt", lit("real", 3)]
+    A, B = build(ta), build(tb)
+    vals = [Fraction(0), Fraction(1, 2), Fraction(1), Fraction(3, 2), Fraction(2)]
+    ivs = [(lo, hi) for lo in vals for hi in vals if lo <= hi]
+    table = {}
+    orig = inequality.eval_bounds
+    inequality.eval_bounds = lambda t: table[t]
+    lines, impl = [], []
+    try:
+        for rel in NE_RELS:
+            tree = ["neg", ["eq", "real", ta, tb]] if rel == "ne" else [rel, "real", ta, tb]
+            goal = build(tree)
+            for (lo1, hi1) in ivs:
+                for (lo2, hi2) in ivs:
+                    table[A], table[B] = (lo1, hi1), (lo2, hi2)
+                    try:
+                        r = inequality.eval_inequality_expr(goal)
+                        r = bool(r) if isinstance(r, bool) else ("other", repr(r))
+                    except Exception as e:  # noqa
+                        r = ("raise", type(e).__name__)
+                    impl.append((rel, lo1, hi1, lo2, hi2, r))
+                    lines.append("(ineq %s %s)" % (rel, " ".join("%d %d" % (q.numerator, q.denominator) for q in (lo1, hi1, lo2, hi2))))
+    finally:
+        inequality.eval_bounds = orig
+    out = ctx.lean_driver(EXE, lines)
+    if out is None:
+        return
+    nd = 0
+    for (rel, lo1, hi1, lo2, hi2, r), o in zip(impl, out):
+        ctx.case(("interval-decision", rel, str(lo1), str(hi1), str(lo2), str(hi2)), nontrivial=True)
+        ctx.count("interval-decision:%s" % (r if isinstance(r, bool) else r[0]))
+        if not isinstance(r, bool) or (o == "T") != r:
+            nd += 1
+            if nd <= 3:
+                ctx.broken("correspondence:c05:interval-decision",
+                           "eval_inequality_expr on `sqrt 2 %s sqrt 3` with enclosures [%s,%s] and [%s,%s]: impl=%s model=%s" % (rel, lo1, hi1, lo2, hi2, r, o))
+                ctx.coverage["disagreements_checked"] += 1
+
+
 # ---------------------------------------------------------------------------------------------
 # 7. main
 # ---------------------------------------------------------------------------------------------
@@ -1417,39 +1859,45 @@ def run(ctx):
         "(nat and real exponents) sqrt pi exp log sin cos tan atn abs, depth <= 4, with canonical and non-canonical numerals, zero divisors, "
         "negative bases, fractional/negative/computed exponents, 10^18..10^40 constants, values differing by 10^-30; right-hand sides aimed at "
         "the true value, at the value a type-blind evaluator computes, and at near misses; relations = < <= > >=, negated, and `⟷ true/false`; "
+        "near-equal family: a + d ⋈ b with value(a) = value(b) irrational (pi, sqrt 2, sqrt 2 * sqrt 2 ~ 2, exp(log 3) ~ 3, 10^80 * sqrt 2, ...), "
+        "d = ±10^-50..±10^-200 (±1 at the 10^80 scale), six relations, both orders, truth = sign of d; eval_inequality_expr with injected "
+        "rational enclosures (15 x 15 enclosure pairs x 6 relations) against the model's accept conditions; "
         "polynomial (non-)identities over x y n; every goal is sent to every trusted arithmetic macro. A case is (macro, goal); non-trivial = "
         "the checker accepted it; distinct by the goal tree.")
-    # 1. translated table + Lean obligations
+    # 1. translated table + Lean obligations (importing every macro module may switch the current theory:
+    #    K.load() afterwards makes 'transcendentals' the current one)
     try:
-        gen, rows, lvl = gen_lean(ctx.repo)
+        gen, rows, lvl = gen_lean(ctx)
         if ctx.write_if_changed("Holpy/C05/Gen.lean", gen):
             ctx.log("Gen.lean regenerated (changed)")
         ctx.coverage["macro_table"] = {"default_check_level": lvl, "trusted": [r[0] for r in rows if r[1] is not None and r[1] <= lvl], "n": len(rows)}
     except Exception as e:  # noqa
         rows = []
         ctx.broken("translate:c05:macro-table", "untranslatable: %r" % e)
+    K.load()
     proofs_ok = ctx.lean_props(["Holpy.C05.Props"], exes=[EXE])
     if ctx.tier == "thorough" and proofs_ok:
         ctx.lean_check_modules(["Holpy.C05.Props"])
     ctx.coverage["trusted_base"] += [
         "correspondence harness harness/props/c05.py (generators, wire format writer reading Term fields)",
-        "AST scan of @register_macro classes and of the check_level default",
+        "the macro table is the live registry kernel.theory.global_macros after importing every module that mentions register_macro / "
+        "global_macros (AST scan of the classes and of the check_level default as a cross-check)",
         "oracle: Python fractions.Fraction; mpmath at %d digits for irrational constants, sympy.simplify when the two sides agree to 160 digits "
         "(supporting only, never stands for a theorem)" % MP_DPS]
     ctx.assumptions += [
-        "goal terms use every constant at an instance of its declared type (Theory.check_term holds); check_proof itself does not check this",
+        "the Lean model speaks about terms of the theory (every constant at an instance of its declared type); for anything else the wire writer "
+        "produces an atom and the model rejects. That the implementation rejects such goals too is checked by the forged-constant stream "
+        "(fixes/C05-3: check_proof calls Theory.check_term on the argument of a trusted macro)",
         "reals are interpreted in ℚ in the Lean model: real_power only at integer-valued exponents; sqrt/pi/exp/log/trig are atoms there",
-        "float/interval based decisions of const_inequality (when real_eval fails) are not modelled: conditional theorem approx_decision_sound only",
-        "real_norm and real_eq_comparison are judged by the oracle only (random rational valuations for free variables)"]
-    K.load()
-    # the table must agree with the registry of the running implementation
-    reg = K.theory.global_macros
+        "const_inequality, when real_eval fails on a side: the interval evaluator real_interval_eval (mpmath.iv, outward rounding) is NOT modelled and "
+        "is trusted to return an enclosure; the decision taken from the enclosures IS modelled (intervalAccept, proved sound and tight, tied by the "
+        "interval-decision stream), and near-equal irrational goals with exactly known truth are sent through the real checker",
+        "real_norm and real_eq_comparison are judged by the oracle only: valuations 0, 1, -1, x = y, n in {0,1,2} plus random rationals for the free "
+        "variables and for opaque subterms"]
+    # every trusted macro of the running implementation is classified (the Lean obligation says the same about Gen.lean)
     for name, level, mod in rows:
-        if name in reg and reg[name].level != level:
-            ctx.broken("translate:c05:macro-table", "level of %s: source says %r, registry says %r" % (name, level, reg[name].level))
-    for name, m in reg.items():
-        if m.level is not None and m.level <= 0 and name not in MODELLED + ORACLE_ONLY + BRIDGES and not name.startswith("verit_"):
-            ctx.broken("trusted-macro-unclassified", "macro %s has level %r and is in no list" % (name, m.level))
+        if level is not None and level <= lvl and name not in MODELLED + ORACLE_ONLY + BRIDGES:
+            ctx.broken("trusted-macro-unclassified", "macro %s (%s) has level %r and is in no list" % (name, mod, level))
 
     # corpus + directed
     directed = [(g, "directed") for g in directed_goals()] + [(g, "corpus") for g in load_corpus(ctx)]
@@ -1459,25 +1907,32 @@ def run(ctx):
     have = macro_stream(ctx, directed, "directed", envs_for=lambda g: envs)
     for g, _ in directed[:2]:
         ctx.sample({"goal": g})
+    # near-equal irrational comparisons and the accept conditions from injected bounds
+    ne_cases = near_equal_cases(ctx)
+    near_equal_stream(ctx, ne_cases, macros=NE_MACROS if ctx.tier == "thorough" else ["const_inequality", "real_const_ineq"])
+    ctx.sample({"near_equal": ne_cases[0]})
+    interval_decision_stream(ctx)
+    forged_stream(ctx)
+    ctx.log("near-equal stream (%d cases) and interval-decision stream done" % len(ne_cases))
     # random ground goals
     rng = ctx.rng("goals")
-    goals = [gen_goal(rng) for _ in range(ctx.scale(1000, 8000))]
+    goals = [gen_goal(rng) for _ in range(ctx.scale(500, 8000))]
     ctx.log("directed stream done; %d random goals" % len(goals))
     for g, f in goals[:2]:
         ctx.sample({"goal": g, "flavour": f})
     macro_stream(ctx, goals, "random", envs_for=lambda g: envs)
     ctx.log("random stream done")
-    den_stream(ctx, goals[: ctx.scale(1000, 8000)] + directed)
+    den_stream(ctx, goals[: ctx.scale(500, 8000)] + directed)
     # polynomial identities with free variables
     rngp = ctx.rng("poly")
-    pgoals = [gen_poly_goal(rngp) for _ in range(ctx.scale(300, 2500))] + [gen_eq_comparison_goal(rngp) for _ in range(ctx.scale(30, 250))]
+    pgoals = [gen_poly_goal(rngp) for _ in range(ctx.scale(200, 2500))] + [gen_eq_comparison_goal(rngp) for _ in range(ctx.scale(30, 250))]
     ctx.log("den stream done; %d polynomial goals" % len(pgoals))
     macro_stream(ctx, pgoals, "poly", macros=["real_norm", "real_eq_comparison", "real_eval", "real_const_eq", "const_inequality"], envs_for=lambda g: envs)
     ctx.sample({"goal": pgoals[0][0], "flavour": pgoals[0][1]})
     # evaluators
     ctx.log("polynomial stream done")
     rnge = ctx.rng("exprs")
-    exprs = [gen_sized_expr(rnge, rnge.choice(["nat", "nat", "int", "real", "real", "real", "other"]), rnge.choice([1, 2, 3, 4])) for _ in range(ctx.scale(1500, 12000))]
+    exprs = [gen_sized_expr(rnge, rnge.choice(["nat", "nat", "int", "real", "real", "real", "other"]), rnge.choice([1, 2, 3, 4])) for _ in range(ctx.scale(800, 12000))]
     exprs += [g[2] for g in directed_goals() if isinstance(g, list) and len(g) == 4] + [g[3] for g in directed_goals() if isinstance(g, list) and len(g) == 4]
     evaluator_stream(ctx, exprs)
     ctx.log("evaluator stream done")
@@ -1497,7 +1952,14 @@ def replay(ctx, rp):
     """Re-run one recorded failing input on the implementation; returns True if it still fails."""
     K.load()
     r = rp["replay"]
-    if "evaluator" in r:
+    if "near_equal" in r:
+        near_equal_stream(ctx, [r["near_equal"]], macros=[r["macro"]])
+    elif r.get("forged"):
+        goal = build(r["goal"])
+        res = run_check(r["macro"], goal)
+        if res[0] == "ok":
+            ctx.violation("forged-constant:%s" % r["macro"], "%s still accepts the forged-constant goal" % r["macro"], r)
+    elif "evaluator" in r:
         ctx.lean_driver = lambda *a, **k: None
         evaluator_stream(ctx, [r["expr"]])
     elif "goal" in r:
@@ -1510,21 +1972,29 @@ def replay(ctx, rp):
 
 
 MANIFEST = {
-    "text": "Lean theorems about an executable model (after the proposed fixes) of nat_eval/int_eval/real_eval and of the eval methods of the "
-            "level-0 arithmetic macros nat_eval, int_eval, int_const_ineq, real_eval, real_const_eq, real_compare, real_const_ineq and the exact "
-            "branch of const_inequality: every accepted one-step proof asserts a statement that is true in the typed standard semantics (ℕ with "
-            "truncated subtraction, ℤ, ℚ with x/0 = 0), and is about terms of the type the step is meant for. The table of all registered macros "
-            "with their trust level is regenerated from source on every run and every level-0 macro must be classified (decide). The model is tied to "
-            "the Python by differential runs through the real check_proof; every accepted sequent is judged by an independent exact evaluator.",
-    "note": "Partial: float-based decisions of const_inequality are covered only by the conditional theorem approx_decision_sound and by the "
-            "mpmath/sympy oracle (the interval evaluator real_interval_eval introduced by fixes/C05-2 trusts mpmath.iv); real_norm (polynomial "
-            "normaliser, util/poly.py) and real_eq_comparison (builds a proof term through auto) have no Lean model and are judged by the oracle "
-            "only, with random rational values for variables and opaque subterms; reals are modelled in ℚ (real power at integer exponents and at "
-            "bases 0, 1). Goal terms are assumed to use constants at instances of their declared types. Trusted: Lean kernel, "
-            "propext/Classical.choice/Quot.sound, the harness generators and wire writer, Fraction/mpmath/sympy.",
+    "text": "Lean theorems about an executable model (of the fixed code) of nat_eval/int_eval/real_eval and of the eval methods of the "
+            "level-0 arithmetic macros nat_eval, int_eval, int_const_ineq, real_eval, real_const_eq, real_compare, real_const_ineq and "
+            "const_inequality (exact branch, plus the six accept conditions of its interval branch): every accepted one-step proof asserts a "
+            "statement that is true in the typed standard semantics (ℕ with truncated subtraction, ℤ, ℚ with x/0 = 0) and is about terms of the "
+            "type the step is meant for; the accept conditions from enclosures are sound and cannot be relaxed. The table of all registered "
+            "macros with their trust level is the live registry of the running implementation (cross-checked with an AST scan) and every "
+            "level-0 macro must be classified (decide). The model is tied to the Python by differential runs through the real check_proof and by "
+            "injecting enclosures into eval_inequality_expr; every accepted sequent is judged by an independent exact evaluator, near-equal "
+            "irrational comparisons by the sign of a rational perturbation (confirmed at 1300 digits).",
+    "note": "Partial: for const_inequality goals that real_eval cannot compute, the interval evaluator real_interval_eval (fixes/C05-2, mpmath.iv "
+            "with outward rounding) is not modelled and is trusted to return enclosures; only the decision from the enclosures is modelled and "
+            "proved (interval_accept_sound/tight). real_norm (polynomial normaliser, util/poly.py) and real_eq_comparison (builds a proof term "
+            "through auto) have no Lean model and are judged by the oracle only, at the valuations 0, 1, -1, x = y, n in {0,1,2} and random "
+            "rationals for variables and opaque subterms; reals are modelled in ℚ (real power at integer exponents and at bases 0, 1). The model "
+            "speaks about terms of the theory; that goals with a constant at a non-instance of its declared type are rejected is checked on the "
+            "implementation by a directed stream (fixes/C05-3). Trusted: Lean kernel, propext/Classical.choice/Quot.sound, the harness generators "
+            "and wire writer, Fraction/mpmath/sympy.",
     "design_ref": "DESIGN.md 4/C05",
 }
 FINDINGS = [
+    {"status": "fixed", "key": "forged-constant:nat_eval", "commit": "fixes/C05-3.patch",
+     "what": "check_proof evaluated trusted macros on goals that are not terms of the theory: nat_eval and const_inequality accepted "
+             "|- minus (1::real) 2 = (0::nat) with minus :: real => real => nat (evaluators go by constant names; Theory.check_term was never called)"},
     {"status": "fixed", "key": "wrong-type:nat_eval:real", "commit": "c7e308e",
      "what": "nat_eval accepted |- (1::real) - 2 = 0 (evaluators dispatch on constant names only; the macro had no type guard)"},
     {"status": "fixed", "key": "wrong-type:int_eval:nat", "commit": "c7e308e",
